@@ -15,3 +15,7 @@ package main
 //@   # (the inferred type names themselves never start with the optional marker)
 //@   loop 1 invariant[C26] forall(k, "int", has(argumentTypesByIndex, k) ==> !strings.HasPrefix(argumentTypesByIndex[k], "?"))
 //@   callsite[C26] append strings.HasPrefix(a_1[0].Type[0], "?") == (minimumRequiredArgc > 0 && currentIndex >= minimumRequiredArgc)
+//@   # mrb_get_args format strings: the modifier characters `|`, `!` and `?` consume no Ruby argument
+//@   # (`?` only fills a "was it given" flag); every argument read after `|` is optional
+//@   callsite[C26] append formatCharacter != '?' && formatCharacter != '!' && formatCharacter != '|'
+//@   callsite[C26] append formatCharacter != '*' && formatCharacter != '&' ==> strings.HasPrefix(a_1[0].Type[0], "?") == isInOptionalSection
